@@ -5,3 +5,9 @@ package pipeline
 func verifGate(_ string, _, _ uint64) {}
 
 func verifTrace(_ string, _, _ uint64) {}
+
+func verifStreamKey(_ *stream) uint64 { return 0 }
+
+func verifFinFlags(_, _ bool) uint64 { return 0 }
+
+func verifBatcherID(_ *Batcher) uint64 { return 0 }
